@@ -9,7 +9,7 @@
 //!   * the WASM host: a `WasmEngine` with a hand-encoded module that imports the host functions of runtime/wasm.rs and
 //!     re-exports them (plus poke / peek of the linear memory and i64.trunc_sat_f64_s, the index conversion wasmgen emits).
 //!
-//! One case per input line, one answer line per case; syntax in ocaml/prims_drv.ml.  Header: `S=size;N=now;R=srhex[;M=T|I]`.
+//! One case per input line, one answer line per case; syntax in ocaml/prims_drv.ml.  Header: `S=size;N=now;R=srhex[;M=T|I][;O=W][;Y=types]`.
 //!   answer := '#' id ' vm=' res* '|wasm=' res* '|vmst=' words '@' pos '|wast=' words '@?' '|vmlen=' heap.len()
 //! A panic is mapped to a fault class (Fh invalid handle, Fr out of range, Fu cursor underflow, Fs bad size, F? other) and
 //! ends that implementation's run.  A state access of the VM outside the storage is NOT executed (StateStorage uses raw
@@ -791,6 +791,7 @@ fn run_case(line: &str, precompiled: &[u8]) -> Result<String, String> {
     let now = pu(kv(parts.next().unwrap_or(""), "N")?)?;
     let _sr = kv(parts.next().unwrap_or(""), "R")?;
     let mut instr = false;
+    let mut wasm_only = false;
     let mut types: Vec<TypeNodeId> = vec![];
     let mut ops = vec![];
     for p in parts {
@@ -799,6 +800,12 @@ fn run_case(line: &str, precompiled: &[u8]) -> Result<String, String> {
         }
         if let Some(m) = p.strip_prefix("M=") {
             instr = m == "I";
+            continue;
+        }
+        if let Some(o) = p.strip_prefix("O=") {
+            // O=W: only the WASM host runs (sequences with words that are no heap handle: the VM still transmutes a
+            // handle word into a key, so the zero word would make it read slotmap's vacant sentinel slot)
+            wasm_only = o == "W";
             continue;
         }
         if let Some(y) = p.strip_prefix("Y=") {
@@ -812,10 +819,11 @@ fn run_case(line: &str, precompiled: &[u8]) -> Result<String, String> {
     }
     // VM
     let mut vout = vec![];
-    let vm_res = guarded(|| VmSide::new(size, instr));
+    let vm_res = if wasm_only { Err(String::new()) } else { guarded(|| VmSide::new(size, instr)) };
     let mut vmst = String::from("!");
     let mut vmlen = String::from("!");
     match vm_res {
+        Err(_) if wasm_only => {}
         Err(m) => vout.push(format!("F?new:{}", m.replace(['|', ';', '\n'], " "))),
         Ok(mut v) => {
             v.m.prog.type_table = types.clone();
